@@ -404,3 +404,26 @@ Example C04_loop_space_5 : measures 5 = Some ((9, CSym (S_ "done"%string), 0), (
 Proof. exact measures_5. Qed.
 Example C04_loop_space_50 : measures 50 = Some ((9, CSym (S_ "done"%string), 0), (259, CSym (S_ "yes"%string), 0)).
 Proof. exact measures_50. Qed.
+
+(* MUTUAL recursion: (define ping (lambda (l) (if l (pong (l)) 'done))) and
+   (define pong (lambda (l) (if l (ping (l)) 'done))): n alternating tail calls, the same bound;
+   the model on chains of 1, 5, 50 thunks: maximum 9 every time. *)
+Theorem C04_loop_space_mutual : forall ob bsem,
+  (forall b, builtin_ok ob bsem b) -> (forall b, builtin_envs ob bsem b) ->
+  forall n rho s,
+  rho (S_ "ping"%string) = Some ping_clo -> rho (S_ "pong"%string) = Some pong_clo ->
+  rho (S_ "c"%string) = Some (chain n) -> minv s -> genv_rel3 rho s ->
+  transform_expr TRANSFORM_FUEL s (cell_of3 ping_call) = Ok (cell_of3 ping_call) ->
+  exists k m m0 m6,
+    prepare_eval (cell_of3 ping_call) s = ROk tt m0 /\ sp m0 = sp s /\ steps ob k m0 = Some m6 /\
+    Vm.run_one ob m6 = ROk true m /\
+    (forall fuel, (S k <= fuel)%nat -> eval ob fuel (cell_of3 ping_call) s = halt_result m) /\
+    vrep3 m (acc m) v_done /\ genv_rel3 rho m /\ minv m /\ sp m = sp s /\
+    (forall j s', (j <= k)%nat -> steps ob j m0 = Some s' -> sp s' <= sp s + 9).
+Proof. exact pingpong_loop_space. Qed.
+Print Assumptions C04_loop_space_mutual.
+Example C04_loop_space_mutual_run :
+  pingpong_measure 1 = Some (9, CSym (S_ "done"%string), 0) /\
+  pingpong_measure 5 = Some (9, CSym (S_ "done"%string), 0) /\
+  pingpong_measure 50 = Some (9, CSym (S_ "done"%string), 0).
+Proof. exact pingpong_measures. Qed.
